@@ -8,10 +8,11 @@
    Hypotheses: TablesOK (facts about the specification tables), TreeFacts w (= C03's TreeInv, see
    Tree/IndexProofsBridge.v).  Known04 = finding classes (witnesses below), Pending04 = constructors whose proof is
    not finished: OpCopy OpCopyAt OpMove OpMoveAt OpSetItemName OpRemoveFile OpRemoveFromFile.
-   [P] C04_inv_partial, C04_history_partial, C04_reachable_partial   [U] C04_lookup, C04_enumeration,
+   [P] C04_inv_partial, C04_history_partial, C04_reachable_partial, C04_set_item_name (one operation, given Inv05)
+   [U] C04_lookup, C04_enumeration,
    C04_unique_paths, C04_path_concat, C04_rekey (the prefix re-keying loop of fix_identifiables). *)
 From AV Require Import Base.Bytes Base.Outcome Hash.HashModel Tree.Heap Tree.Ops Tree.Script Tree.Inv.
-From AV Require Import Tree.Index Tree.IndexProofsAssoc Tree.IndexProofs Tree.Refs Tree.IndexProofsBridge Tree.IndexProofsTiny.
+From AV Require Import Tree.Index Tree.IndexProofsAssoc Tree.IndexProofs Tree.Refs Tree.IndexProofsSetName Tree.IndexProofsBridge Tree.IndexProofsTiny.
 Import Tiny.
 Open Scope list_scope.
 Open Scope N_scope.
@@ -33,6 +34,17 @@ Theorem C04_history_partial :
   Inv04 T check_fn w -> steps_ok T tab_el tab_en check_fn LATEST root_attrs l w ->
   run_hist T tab_el tab_en check_fn LATEST root_attrs l w = Val w' -> Inv04 T check_fn w'.
 Proof. exact IndexProofs.C04_history_partial. Qed.
+
+(* Element::set_item_name: needs C05's invariant as well (the members of the referrer lists must be reference
+   elements: their first content item is overwritten).  OpSetItemName is still in Pending04/Pending05 because the
+   preservation of Inv05 by the referrer-list merge is not proved yet. *)
+Theorem C04_set_item_name :
+  forall (T : tables) (check_fn : N -> list N -> res bool) (LATEST : N),
+  TablesOK T check_fn ->
+  forall (h : id) (nn : list N) (w : world) (r : out unit) (w' : world),
+  TreeFacts w -> Inv04 T check_fn w -> Inv05 T w ->
+  e_set_item_name T check_fn LATEST h nn w = Val (r, w') -> Inv04 T check_fn w'.
+Proof. exact IndexProofsSetName.C04_set_item_name. Qed.
 
 (* closed form: every history from the empty world whose steps avoid the finding classes of C03, C04, C05 and the
    pending constructors (a decidable condition on the history) *)
